@@ -136,7 +136,7 @@ func (e *cloneSetEnv) createPod(w *World, cs *kruisev1alpha1.CloneSet, rev int, 
 	t := true
 	p := &corev1.Pod{
 		ObjectMeta: metav1.ObjectMeta{Namespace: w.NS, Name: name,
-			Labels: map[string]string{"app": WorkloadNm, "controller-revision-hash": revName(rev), "pod-template-hash": fmt.Sprintf("v%d", rev)},
+			Labels:          map[string]string{"app": WorkloadNm, "controller-revision-hash": revName(rev), "pod-template-hash": fmt.Sprintf("v%d", rev)},
 			OwnerReferences: []metav1.OwnerReference{{APIVersion: "apps.kruise.io/v1alpha1", Kind: "CloneSet", Name: cs.Name, UID: cs.UID, Controller: &t}},
 		},
 		Spec: podTemplate(rev).Spec,
@@ -351,6 +351,9 @@ func (e *cloneSetEnv) Release(w *World, rev int) error {
 			nw.Annotations = map[string]string{}
 		}
 		id := fmt.Sprintf("id%d-%d", rev, w.Ghost.Used["user.release2"]+w.Ghost.Used["user.release3"]+w.Ghost.Used["user.rollback"])
+		if w.Cfg.RolloutIDFixed {
+			id = "idfix"
+		}
 		nw.Labels["rollouts.kruise.io/rollout-id"] = id
 		nw.Annotations["rollouts.kruise.io/rollout-id"] = id
 	}
